@@ -731,6 +731,8 @@ def build(P, via_file=False):
     from gen.images import to_bytes
     from gen.pixeltransforms import make_image
     ds = make_image(P)
+    if via_file == 'lazy':
+        return hd.imread(io.BytesIO(to_bytes(ds)), lazy_frame_retrieval=True), ds
     if via_file:
         return hd.imread(io.BytesIO(to_bytes(ds))), ds
     return hd.Image.from_dataset(ds), ds
@@ -774,11 +776,11 @@ def check_call(ctx, case, P, f, flags, opts, res, site, hist=True):
 
 
 def stream_pipeline(ctx, reqs, pending):
-    n_img = ctx.n(350, 6000)
+    n_img = ctx.n(350, 20000)
     for idx in range(n_img):
         r = ctx.rng('pipe', idx)
         P, _ = gen_pipeline_case(r, idx)
-        via_file = r.random() < 0.15
+        via_file = r.choice([False] * 16 + [True, True, 'lazy', 'lazy'])
         st = call(build, P, via_file)
         if st[0] == 'err':
             ctx.note(f'generator could not build image {idx}: {st[2]}')
@@ -954,7 +956,14 @@ def stream_flags(ctx, reqs, pending):
             ctx.note(f'flag image could not be built: {st[2]}')
             continue
         im = st[1][0]
-        sel = tuples if full else r.sample(tuples, min(per_row, len(tuples)))
+        if full:
+            sel = tuples
+        else:
+            # a uniform sample is ~88 % refusals: take two thirds from the cells the table lets succeed
+            good = [t for t in tuples if spec_stages(t, ct, pres) is not None]
+            k = min(per_row, len(tuples))
+            sel = r.sample(good, min(len(good), (2 * k) // 3))
+            sel += r.sample(tuples, k - len(sel))
         for flags in sel:
             res = call(im.get_frame, 1, **flag_kwargs(flags))
             case = {'stream': 'flags', 'ctype': ct, 'present': pres, 'flags': flags}
@@ -1105,7 +1114,7 @@ def stream_lut(ctx, reqs, pending):
     from pydicom.sequence import Sequence
     from gen.images import base_dataset, to_bytes, MF_SC_WORD
     from pydicom.uid import ExplicitVRLittleEndian
-    n_cases = ctx.n(120, 1500)
+    n_cases = ctx.n(120, 4000)
     big_every = 40 if ctx.tier == 'quick' else 25
     for idx in range(n_cases):
         r = ctx.rng('lut', idx)
@@ -1234,7 +1243,7 @@ def stream_palette(ctx, reqs, pending):
     import highdicom as hd
     from pydicom.pixels.processing import apply_color_lut
     from gen.pixeltransforms import make_image
-    for idx in range(ctx.n(60, 600)):
+    for idx in range(ctx.n(60, 1500)):
         r = ctx.rng('pal', idx)
         nr = ctx.np_rng('pal', idx)
         bits = r.choice([8, 16])
@@ -1462,7 +1471,7 @@ def stream_objects(ctx, reqs, pending):
     from pydicom.pixels.processing import apply_modality_lut, apply_windowing
     from pydicom.sr.coding import Code
     from gen.pixeltransforms import fl, lut_item
-    for idx in range(ctx.n(150, 2500)):
+    for idx in range(ctx.n(150, 8000)):
         r = ctx.rng('obj', idx)
         kind = r.choice(['voi-window', 'voi-window', 'voi-lut', 'mod-rescale', 'mod-lut', 'rwvm-linear', 'rwvm-lut'])
         signed = r.random() < 0.3
@@ -1602,7 +1611,7 @@ def stream_paths(ctx, reqs, pending):
     import highdicom as hd
     from gen.pixeltransforms import add_transforms
     from gen.sources import ct_series, enhanced_multiframe, slide_image
-    for idx in range(ctx.n(24, 300)):
+    for idx in range(ctx.n(24, 900)):
         r = ctx.rng('paths', idx)
         nr = ctx.np_rng('paths', idx)
         path = ['volume', 'tpm', 'series'][idx % 3]
